@@ -45,7 +45,7 @@ OUTSIDE = "keys of other types; printed key length beyond the bound; collision r
 REQUIRED_CLASSES = ["decodable_unsat", "pool_pairs", "dict_lookup", "expr_structure"]
 PROFILE_CASES = 1
 TASKS_PER_CHILD = 100
-QUERY_TIMEOUT_MS = 20000
+QUERY_TIMEOUT_MS = 60000
 
 
 def note(ex, k, n=1):
@@ -187,7 +187,7 @@ def cvc5_unsat(smt2):
     slv = cvc5.Solver()
     slv.setOption("strings-exp", "true")
     slv.setOption("strings-fmf", "true")
-    slv.setOption("tlimit-per", "30000")
+    slv.setOption("tlimit-per", "600000")
     p = cvc5.InputParser(slv)
     p.setStringInput(cvc5.InputLanguage.SMT_LIB_2_6, smt2, "q")
     sm = p.getSymbolManager()
